@@ -52,7 +52,8 @@ func (c14) Runs(tier string) int {
 func (c14) RequiredProbes(string) []string { return []string{"probe_allowed", "probe_denied", "invalid_document_refused"} }
 
 var c14ObjActs = []string{"s3:GetObject", "s3:PutObject", "s3:DeleteObject", "s3:GetObjectTagging", "s3:PutObjectTagging", "s3:DeleteObjectTagging", "s3:GetObjectAttributes", "s3:AbortMultipartUpload"}
-var c14BktActs = []string{"s3:ListBucket", "s3:GetBucketTagging", "s3:PutBucketTagging", "s3:GetBucketPolicy", "s3:GetBucketVersioning", "s3:ListBucketVersions", "s3:ListBucketMultipartUploads", "s3:GetBucketAcl"}
+// (GetBucketVersioning is additionally restricted to the owner by the gateway and therefore not a clean probe)
+var c14BktActs = []string{"s3:ListBucket", "s3:GetBucketTagging", "s3:PutBucketTagging", "s3:GetBucketPolicy", "s3:ListBucketVersions", "s3:ListBucketMultipartUploads", "s3:GetBucketAcl"}
 
 func c14GenPattern(r *rand.Rand) string {
 	parts := []string{"obj", "dir", "a", "x", "data", "1", "2024"}
@@ -108,11 +109,10 @@ func c14Subject(r *rand.Rand, pattern string) string {
 		b.WriteString("tail")
 	}
 	s := b.String()
-	s = strings.TrimPrefix(s, "/")
 	for strings.Contains(s, "//") {
 		s = strings.ReplaceAll(s, "//", "/")
 	}
-	s = strings.TrimSuffix(s, "/")
+	s = strings.Trim(s, "/")
 	if s == "" || s == "." || s == ".." {
 		s = "k"
 	}
@@ -148,7 +148,8 @@ func c14GenValid(r *rand.Rand, bucket string, users []string) *model.Policy {
 				st.Actions = []string{[]string{"s3:Get*", "s3:Put*", "s3:Delete*", "s3:GetObject*", "s3:PutObject*", "s3:Abort*"}[r.IntN(6)]}
 				st.Resources = []string{"arn:aws:s3:::" + bucket + "/" + c14GenPattern(r), "arn:aws:s3:::" + bucket}
 			} else {
-				st.Actions = []string{[]string{"s3:List*", "s3:GetBucket*", "s3:PutBucket*"}[r.IntN(3)]}
+				// ("s3:List*" also covers an object-level action; whether it may stand with a bucket resource alone is left unjudged)
+				st.Actions = []string{[]string{"s3:ListBucket*", "s3:GetBucket*", "s3:PutBucket*"}[r.IntN(3)]}
 				st.Resources = []string{"arn:aws:s3:::" + bucket}
 			}
 		default:
@@ -507,7 +508,7 @@ func (c14) Exec(c *core.Case) (out *core.Outcome) {
 		o.AddClass("doc|%s|%s|%s|perm=%v", d.Class, shape, statusClass(res.Resp.Status), c.Sched.PermMaps)
 		if d.Valid {
 			if !res.Resp.OK() {
-				o.Violate("policy-validation", "C14/valid-refused/"+shape, "document %d: a valid policy was refused with %d %s: %s", di, res.Resp.Status, res.Resp.ErrCode(), body)
+				o.Violate("policy-validation", "C14/valid-refused", "document %d: a valid policy was refused with %d %s: %s", di, res.Resp.Status, res.Resp.ErrCode(), body)
 				continue
 			}
 			current, currentRaw = d.Policy, body
